@@ -5,7 +5,8 @@
 (* Sparql.tla / Update.tla; "alt" tokens mark equivalent spellings         *)
 (* (';' and ',' abbreviations, optional WHERE, ASC(?x) for ?x).  One       *)
 (* action emits one token: it chooses the separator (space, newline, tab,  *)
-(* CR LF, a comment line, or nothing next to a bracket), the spelling of a *)
+(* CR LF, a lone CR, a comment line ended by LF / CR LF / CR, or nothing   *)
+(* next to a bracket; the text may end in a comment), the spelling of a    *)
 (* keyword (any letter case) and resolves an alternative.  Fault actions   *)
 (* (at most one per text) truncate the text, drop or duplicate a token, or *)
 (* insert a multi-byte character between two tokens.  A finished state     *)
@@ -40,9 +41,20 @@ BgpToks(txt, tps, k) ==
                    ELSE SY(";") \o TM(Render(txt, tps[k][2])) \o TM(Render(txt, tps[k][3])))
           ELSE SY(".") \o TP(txt, tps[k]))
 
+\* operand of a comparison: a term, or <<"ar", op, left, right>> with op one of + - * /.  The grammar is left-associative
+\* with * / binding tighter: the left operand needs brackets when it binds weaker, the right operand when it does not
+\* bind tighter; redundant brackets are an equivalent spelling.
+Prec(op) == IF op \in {"+", "-"} THEN 1 ELSE 2
+RECURSIVE OperandToks(_, _, _)
+OperandToks(txt, t, minprec) ==
+  IF t[1] # "ar" THEN TM(Render(txt, t))
+  ELSE LET p == Prec(t[2])
+           body == OperandToks(txt, t[3], p) \o SY(t[2]) \o OperandToks(txt, t[4], p + 1)
+       IN  IF p < minprec THEN SY("(") \o body \o SY(")") ELSE ALT(body, SY("(") \o body \o SY(")"))
+
 RECURSIVE ExprToks(_, _)
 ExprToks(txt, e) ==
-  CASE e.t = "cmp" -> TM(Render(txt, e.l)) \o SY(e.op) \o TM(Render(txt, e.r))
+  CASE e.t = "cmp" -> OperandToks(txt, e.l, 1) \o SY(e.op) \o OperandToks(txt, e.r, 1)
     [] e.t = "not" -> SY("!") \o SY("(") \o ExprToks(txt, e.a) \o SY(")")
     [] e.t = "and" -> SY("(") \o ExprToks(txt, e.a) \o SY(")") \o SY("&&") \o SY("(") \o ExprToks(txt, e.b) \o SY(")")
     [] e.t = "or"  -> SY("(") \o ExprToks(txt, e.a) \o SY(")") \o SY("||") \o SY("(") \o ExprToks(txt, e.b) \o SY(")")
@@ -136,7 +148,7 @@ EmitTok == /\ ~done /\ toks # <<>> /\ Head(toks).k # "alt"
            /\ UNCHANGED <<i, fault, done>>
 
 Finish == /\ ~done /\ toks = <<>>
-          /\ \E tail \in {"", " ", "\n"} : text' = text \o tail
+          /\ \E tail \in {"", " ", "\n"} \cup {Aux.tails[k] : k \in 1..Len(Aux.tails)} : text' = text \o tail
           /\ done' = TRUE /\ UNCHANGED <<i, toks, prev, fault>>
 
 \* ---- faults (at most one per text)
